@@ -83,6 +83,22 @@ def out_of_bounds(spec, batch):
     return None
 
 
+def off_declared_grid(spec, batch):
+    """Independent of black-it's own grid object: every coordinate must be lower + k*precision for an integer k >= 0 (the
+    grid the user declared), up to rounding.  -> None or (row, col, value)."""
+    lo = np.asarray(spec["bounds"][0], dtype=float)
+    prec = np.asarray(spec["precision"], dtype=float)
+    for j in range(batch.shape[1]):
+        k = np.rint((batch[:, j] - lo[j]) / prec[j])
+        ref = lo[j] + k * prec[j]
+        tol = 1e-9 * max(abs(lo[j]), abs(prec[j]), 1e-300) + 1e-12 * np.abs(batch[:, j])
+        bad = (np.abs(batch[:, j] - ref) > tol) | (k < 0)
+        if bad.any():
+            i = int(np.argmax(bad))
+            return i, j, batch[i, j]
+    return None
+
+
 def on_grid(space, batch):
     """-> None if every coordinate is an exact grid element, else (row, col, value)."""
     for j in range(space.dims):
